@@ -48,9 +48,11 @@ pub fn mangle(e: &Entity, cwd: &Path, mod_dir: &Path, interner: &mut Interner) -
     })
 }
 
-const DIRS: [&str; 14] = ["a", "b1", "1", "f1", "a.b", "a-b", "src", "x.capy", "x", "2f1", "m1", "_", "A", "ab"];
-const FILES: [&str; 8] = ["x.capy", "1.capy", "f1.capy", "a.b.capy", "a-b.capy", "src.capy", "main.capy", "mod.capy"];
-const NAMES: [&str; 10] = ["a", "main", "x", "f1", "E", "N1a", "_1", "l5", "g", "a1E"];
+const DIRS: [&str; 16] = ["a", "b1", "1", "f1", "a.b", "a-b", "src", "x.capy", "x", "2f1", "m1", "_", "A", "ab", "x.capy.capy", "3mod11table"];
+const FILES: [&str; 9] = ["x.capy", "1.capy", "f1.capy", "a.b.capy", "a-b.capy", "src.capy", "main.capy", "mod.capy", "x.capy.capy"];
+// the last names are chosen so that a length prefix that is not separated from a digit-leading part becomes ambiguous:
+// <1><"1"> <3><"mod"> <11><"table3mod1f">  reads the same as  <11><"3mod11table"> <3><"mod"> <1><"f">
+const NAMES: [&str; 13] = ["a", "main", "x", "f1", "E", "N1a", "_1", "l5", "g", "a1E", "table3mod1f", "f", "1f"];
 
 /// classification of a collision by the feature of the path that makes the two entities differ,
 /// so that the known encodings' weaknesses can be told apart from anything new
@@ -155,7 +157,8 @@ pub fn run(args: &Args) -> Value {
         }
     }
     // (2) all entity shapes on a few paths: names x lambda ids x generic ids x comptime ids x data suffixes
-    let few_paths: Vec<Vec<String>> = vec![vec!["x.capy".into()], vec!["a".into(), "x.capy".into()], vec!["1".into(), "1.capy".into()]];
+    let few_paths: Vec<Vec<String>> = vec![vec!["x.capy".into()], vec!["a".into(), "x.capy".into()], vec!["1".into(), "1.capy".into()],
+        vec!["1".into(), "src".into(), "mod.capy".into()], vec!["3mod11table".into(), "src".into(), "mod.capy".into()]];
     let ids: Vec<u32> = vec![0, 1, 2, 9, 10, 11, 12, 99, 100, 101, 110, 111, 999];
     for p in &few_paths {
         for in_mod in [false, true] {
@@ -180,7 +183,22 @@ pub fn run(args: &Args) -> Value {
     let n_rand = args.num("random", if args.thorough() { 3_000_000 } else { 150_000 });
     for _ in 0..n_rand {
         let depth = 1 + rng.below(3);
-        let mut p: Vec<String> = (0..depth - 1).map(|_| DIRS[rng.below(DIRS.len())].to_string()).collect();
+        let mut p: Vec<String> = (0..depth - 1)
+            .map(|_| {
+                if rng.chance(1, 6) {
+                    // a made-up alphanumeric name that starts with a digit (legal for folders and modules)
+                    let n = 1 + rng.below(12);
+                    let mut s = String::new();
+                    s.push((b'0' + rng.below(10) as u8) as char);
+                    for _ in 1..n {
+                        s.push(*rng.pick(&['1', '2', '3', 'a', 'm', 'o', 'd', 't', 'f']));
+                    }
+                    s
+                } else {
+                    DIRS[rng.below(DIRS.len())].to_string()
+                }
+            })
+            .collect();
         p.push(FILES[rng.below(FILES.len())].to_string());
         let in_mod = p.len() >= 2 && rng.chance(1, 3);
         let base = if rng.chance(1, 2) { Base::Global(NAMES[rng.below(NAMES.len())].to_string()) } else { Base::Lambda(rng.below(1000) as u32) };
